@@ -52,7 +52,9 @@ def f32(x):
 
 
 # ---------------------------------------------------------------------------------- building agents
-def net_config(rainbow=False):
+def net_config(rainbow=False, partial=False):
+    if partial:          # a user configuration that names only the encoder (everything else defaulted by the library)
+        return {"encoder_config": {"hidden_size": [8]}}
     enc = {"hidden_size": [8], "min_mlp_nodes": 4, "max_mlp_nodes": 32}
     head = {"hidden_size": [16 if rainbow else 8]}
     if not rainbow:
@@ -72,12 +74,12 @@ def build(case):
         from agilerl.algorithms.dqn import DQN
         from agilerl.algorithms.cqn import CQN
         cls = DQN if algo in ("DQN", "DDQN") else CQN
-        return cls(obs_space, spaces.Discrete(N_ACT), net_config=net_config(), gamma=g, tau=tau,
+        return cls(obs_space, spaces.Discrete(N_ACT), net_config=net_config(partial=case.get("partial_cfg", False)), gamma=g, tau=tau,
                    double=algo in ("DDQN", "CDQN"), batch_size=case["B"], lr=case.get("lr", 1e-2))
     if algo == "Rainbow":
         from agilerl.algorithms.dqn_rainbow import RainbowDQN
         rb = case["rb"]
-        return RainbowDQN(obs_space, spaces.Discrete(N_ACT), net_config=net_config(True), gamma=g, tau=tau,
+        return RainbowDQN(obs_space, spaces.Discrete(N_ACT), net_config=net_config(True, partial=case.get("partial_cfg", False)), gamma=g, tau=tau,
                           batch_size=case["B"], lr=case.get("lr", 1e-2), num_atoms=rb["atoms"], v_min=rb["vmin"],
                           v_max=rb["vmax"], n_step=rb["n_step"], combined_reward=rb["combined"])
     if algo in SINGLE_AC:
@@ -86,14 +88,14 @@ def build(case):
         from agilerl.algorithms.ddpg import DDPG
         from agilerl.algorithms.td3 import TD3
         cls = DDPG if algo == "DDPG" else TD3
-        return cls(obs_space, spaces.Box(lo, hi, (ACT_DIM,), np.float32), net_config=net_config(), gamma=g, tau=tau,
+        return cls(obs_space, spaces.Box(lo, hi, (ACT_DIM,), np.float32), net_config=net_config(partial=case.get("partial_cfg", False)), gamma=g, tau=tau,
                    policy_freq=case["pf"], share_encoders=case.get("share", False), batch_size=case["B"],
                    lr_actor=case.get("lr", 1e-2), lr_critic=case.get("lr", 1e-2))
     from agilerl.algorithms.maddpg import MADDPG
     from agilerl.algorithms.matd3 import MATD3
     osp = [spaces.Box(-4, 4, (MA_OBS[a],), np.float32) for a in AGENT_IDS]
     asp = [spaces.Box(-1, 1, (MA_ACT[a],), np.float32) for a in AGENT_IDS]
-    kw = dict(agent_ids=list(AGENT_IDS), net_config=net_config(), gamma=g, tau=tau, batch_size=case["B"],
+    kw = dict(agent_ids=list(AGENT_IDS), net_config=net_config(partial=case.get("partial_cfg", False)), gamma=g, tau=tau, batch_size=case["B"],
               lr_actor=case.get("lr", 1e-2), lr_critic=case.get("lr", 1e-2))
     if algo == "MATD3":
         return MATD3(osp, asp, policy_freq=case["pf"], **kw)
@@ -177,7 +179,7 @@ def make_batch(case, salt=0, B=None):
     if algo in SINGLE_AC:
         act = torch.rand(B, ACT_DIM, generator=gen) * 2 - 1
     else:
-        act = torch.randint(0, N_ACT, (B, 1), generator=gen)
+        act = torch.randint(0, N_ACT, (B, 1), generator=gen).to(torch.float32)     # the buffer stores float32 columns
     nxt2 = nxt + dones * (1.0 + torch.rand(B, OBS_DIM, generator=gen))
     mk = lambda n: TensorDict({"obs": obs.clone(), "action": act.clone(), "reward": rewards.clone(),
                                "next_obs": n.clone(), "done": dones.clone()}, batch_size=[B])
@@ -185,13 +187,14 @@ def make_batch(case, salt=0, B=None):
     if algo == "Rainbow":
         rb = case["rb"]
         if rb["per"]:
+            # PrioritizedReplayBuffer.sample: weights.unsqueeze(1), indices.unsqueeze(1)  -> columns (B, 1)
             w = (torch.randint(1, 9, (B,), generator=gen).to(torch.float32) / 8)
             for b in (b1, b2):
-                b["weights"] = w.clone()
-                b["idxs"] = torch.arange(B)
+                b["weights"] = w.clone().reshape(B, 1) if rb.get("wshape", "col") == "col" else w.clone()
+                b["idxs"] = torch.arange(B).reshape(B, 1)
         elif rb["nstep_batch"]:
             for b in (b1, b2):
-                b["idxs"] = torch.arange(B)
+                b["idxs"] = torch.arange(B)                    # ReplayBuffer.sample(return_idx=True)
         if rb["nstep_batch"]:
             # the fused n-step transitions: own rewards / next observations / done flags
             nd = torch.tensor(rb["ndones"][:B] + [0] * max(0, B - len(rb["ndones"])), dtype=torch.float32).reshape(B, 1)
@@ -397,7 +400,8 @@ class C08(vlib.Driver):
                 case = {"algo": algo, "seed": rng.randrange(1, 10 ** 6), "B": B,
                         "gamma": gammas[j % 4], "tau": taus[(j // 2) % 3], "pf": 1,
                         "dones": dones, "rewards": [rng.randint(-8, 8) / 4 for _ in range(B)],
-                        "steps": 1 + (j % 5), "pre": pres[j % len(pres)] if j >= 4 else [], "lr": 1e-2}
+                        "steps": 1 + (j % 5), "pre": pres[(j - 3) % len(pres)] if j >= 4 else [], "lr": 1e-2,
+                        "partial_cfg": j % 6 == 5}
                 if algo in SINGLE_AC or algo == "MATD3":
                     case["pf"] = 1 + (j % 3)
                 if algo in SINGLE_AC:
@@ -411,7 +415,8 @@ class C08(vlib.Driver):
                     case["rb"] = {"atoms": rng.choice([5, 9]), "vmin": rng.choice([-2.0, -4.0]), "vmax": rng.choice([2.0, 4.0]),
                                   "n_step": rng.choice([2, 3]) if nstep_batch else rng.choice([1, 3]), "nstep_batch": nstep_batch,
                                   "per": j % 2 == 1, "combined": j % 4 in (1, 2),
-                                  "ndones": [rng.randint(0, 1) for _ in range(B)]}
+                                  "ndones": [rng.randint(0, 1) for _ in range(B)],
+                                  "wshape": "flat" if j % 4 == 3 else "col"}
                     if "mut_arch" in case["pre"] or "mut_act" in case["pre"]:
                         case["pre"] = ["learn", "mut_param"]
                 cases.append(case)
@@ -620,12 +625,21 @@ class C08(vlib.Driver):
                         out.append(Violation("priority", f"priority:{algo}", f"learn call {k}: new priorities {pri} are not the element-wise "
                                              f"cross-entropies {elems} + prior_eps (rows {bad})"))
             pairs_l = list(zip(got, ref)) if isinstance(got, list) else [(got, ref)]
+            sig = f"loss:{algo}"
+            if algo == "Rainbow" and case["rb"]["per"] and case["rb"].get("wshape", "col") == "col":
+                # is the returned value mean(elementwise) * mean(weights), i.e. the mean of the (B, B) outer product?
+                outer = float(np.mean(elems) * np.mean(rec["tables"]["w"]))
+                if relerr(got, ref) > TOL_LOSS and relerr(got, outer) <= TOL_LOSS:
+                    sig = "loss:Rainbow:per-weights-column-broadcast"
             for i, (a, b) in enumerate(pairs_l):
                 if not (math.isfinite(a) and relerr(a, b) <= TOL_LOSS):
-                    out.append(Violation("loss", f"loss:{algo}",
+                    out.append(Violation("loss", sig,
                                          f"learn call {k}{' agent ' + str(i) if len(pairs_l) > 1 else ''}: learn() returned loss {a!r} but the "
                                          f"algorithm's loss with target r + gamma*(1-done)*Q_target(s') evaluated on the agent's own "
-                                         f"networks is {b!r} (gamma={obs['gamma']}, dones={case['dones']})"))
+                                         f"networks is {b!r} (gamma={obs['gamma']}, dones={case['dones']})"
+                                         + (f"; the returned value equals mean(elementwise loss) * mean(weights) = {outer!r}: the (B,1) importance "
+                                            f"weights {rec['tables']['w']} delivered by the prioritised buffer broadcast against the (B,) losses "
+                                            f"{elems} to a (B,B) matrix" if sig.endswith("broadcast") else "")))
                     break
             # (2) every target network = tau * online + (1 - tau) * previous (at the calls that update, untouched otherwise)
             for s, p in zip(rec["soft"], obs["pairs"]):
@@ -663,6 +677,50 @@ class C08(vlib.Driver):
                                      f"learn(batch with next_obs changed only where done=1) (dones={case['dones']})"))
         return out
 
+    # ---------- the synthetic batches have exactly the format the real replay buffers deliver
+    def extra_static(self):
+        from agilerl.components.replay_buffer import ReplayBuffer, PrioritizedReplayBuffer
+        from agilerl.components.multi_agent_replay_buffer import MultiAgentReplayBuffer
+        from agilerl.components.data import Transition
+        out = []
+        fmt = lambda td: {k: (tuple(v.shape[1:]), str(v.dtype)) for k, v in td.items()}
+        E, B = 2, 4
+
+        def fill(buf, cont):
+            for _ in range(3):         # what train_off_policy stores for a 2-env vector env
+                act = np.random.rand(E, ACT_DIM).astype(np.float32) if cont else np.array([1, 0])
+                t = Transition(obs=np.random.randn(E, OBS_DIM).astype(np.float32), action=act, reward=np.array([1.0, -1.0]),
+                               next_obs=np.random.randn(E, OBS_DIM).astype(np.float32), done=np.array([False, True])).to_tensordict()
+                t.batch_size = [E]
+                buf.add(t)
+        base = {"seed": 1, "B": B, "dones": [0, 1, 0, 1], "rewards": [0.0] * B, "gamma": 0.5, "tau": 0.5, "pf": 1}
+        rbc = {"atoms": 5, "vmin": -2.0, "vmax": 2.0, "n_step": 1, "nstep_batch": False, "per": False, "combined": False, "ndones": [0] * B}
+        checks = []
+        buf = ReplayBuffer(max_size=8); fill(buf, False)
+        checks.append(("ReplayBuffer/discrete", fmt(buf.sample(B)), fmt(make_batch(dict(base, algo="DQN"))[0])))
+        checks.append(("ReplayBuffer/return_idx", fmt(buf.sample(B, return_idx=True)),
+                       fmt(make_batch(dict(base, algo="Rainbow", rb=dict(rbc, nstep_batch=True, n_step=3)))[0][0])))
+        buf = ReplayBuffer(max_size=8); fill(buf, True)
+        checks.append(("ReplayBuffer/continuous", fmt(buf.sample(B)), fmt(make_batch(dict(base, algo="DDPG", lo=[-1, -1], hi=[1, 1]))[0])))
+        buf = PrioritizedReplayBuffer(max_size=8, alpha=0.6); fill(buf, False)
+        checks.append(("PrioritizedReplayBuffer", fmt(buf.sample(B, 0.4)),
+                       fmt(make_batch(dict(base, algo="Rainbow", rb=dict(rbc, per=True, wshape="col")))[0][0])))
+        ma = MultiAgentReplayBuffer(memory_size=8, field_names=["state", "action", "reward", "next_state", "done"], agent_ids=list(AGENT_IDS))
+        for _ in range(4):
+            st = {a: np.random.randn(MA_OBS[a]).astype(np.float32) for a in AGENT_IDS}
+            ac = {a: np.random.rand(MA_ACT[a]).astype(np.float32) for a in AGENT_IDS}
+            ma.save_to_memory(st, ac, {a: 1.0 for a in AGENT_IDS}, st, {a: False for a in AGENT_IDS}, is_vectorised=False)
+        got = ma.sample(B)
+        mine = make_batch(dict(base, algo="MADDPG"))[0]
+        order = (0, 1, 2, 3, 4)       # state, action, reward, next_state, done
+        checks.append(("MultiAgentReplayBuffer", [fmt(got[i]) for i in order], [fmt(mine[i]) for i in order]))
+        for name, real, synth in checks:
+            if real != synth:
+                out.append(Violation("harness", f"batch-format:{name}",
+                                     f"the batches generated by the harness no longer have the format {name} delivers: real {real} vs generated {synth}",
+                                     None, None, found_input=False))
+        return out
+
     def key(self, case):
         return super().key({k: case.get(k) for k in ("algo", "dones", "gamma", "tau", "pf", "steps", "pre", "rb", "share", "ma_split")})
 
@@ -673,11 +731,11 @@ class C08(vlib.Driver):
     def classify(self, case, obs):
         d = case["dones"][:case["B"]]
         labs = [f"algo={case['algo']}", f"gamma={case['gamma']}", f"tau={case['tau']}", f"pf={case['pf']}",
-                f"steps={case['steps']}", f"B={case['B']}", "pre=" + "+".join(case["pre"] or ["none"]),
+                f"steps={case['steps']}", f"B={case['B']}", "pre=" + "+".join(case["pre"] or ["none"]), "cfg=" + ("partial" if case.get("partial_cfg") else "tiny"),
                 "dones=" + ("mixed" if (0 in d and 1 in d) else ("all1" if 1 in d else "all0"))]
         if case["algo"] == "Rainbow":
             rb = case["rb"]
-            labs.append(f"rainbow={'per' if rb['per'] else 'uniform'}/{'nstep' if rb['nstep_batch'] else '1step'}/{'combined' if rb['combined'] else 'single'}")
+            labs.append(f"rainbow={('per-' + rb.get('wshape', 'col')) if rb['per'] else 'uniform'}/{'nstep' if rb['nstep_batch'] else '1step'}/{'combined' if rb['combined'] else 'single'}")
         if obs.get("steps"):
             _, upd = self.update_steps(case, obs)
             labs.append(f"updates={sum(upd)}of{len(upd)}")
